@@ -103,6 +103,23 @@ pub struct RecCollector {
     /// 99 = publish the filter's own hint; 0..=5 = publish that level as max-level hint (changed by the harness mid-history)
     pub hint_cell: Arc<std::sync::atomic::AtomicU64>,
     aliases: Mutex<HashMap<u64, u64>>, // handle id -> root span id
+    /// called when the collector is destroyed on a harness worker thread (a collector that emits while it is dropped)
+    pub drop_hook: Option<fn()>,
+}
+
+/// armed by the harness: the next `event` callback of any RecCollector panics after logging
+pub static BOOM: AtomicBool = AtomicBool::new(false);
+/// how often a `drop_hook` ran
+pub static DROP_HOOKS: AtomicU64 = AtomicU64::new(0);
+impl Drop for RecCollector {
+    fn drop(&mut self) {
+        if let Some(h) = self.drop_hook {
+            if vt() != 0 {
+                DROP_HOOKS.fetch_add(1, Ordering::SeqCst);
+                h();
+            }
+        }
+    }
 }
 
 impl RecCollector {
@@ -123,6 +140,7 @@ impl RecCollector {
                 raw_ids: false,
                 hint_cell: Arc::new(std::sync::atomic::AtomicU64::new(99)),
                 aliases: Mutex::new(HashMap::new()),
+                drop_hook: None,
             },
             flag,
         )
@@ -216,6 +234,10 @@ impl Collect for RecCollector {
     fn event(&self, e: &Event<'_>) {
         let m = e.metadata();
         self.push(json!({"col": self.id, "call": "event", "lvl": rank(m.level()), "tgt": m.target(), "name": m.name(), "th": vt()}));
+        // a collector whose callback panics (once, when the harness arms it); the panic is caught by the emitting code
+        if BOOM.swap(false, Ordering::SeqCst) {
+            panic!("collector callback panics");
+        }
     }
     fn enter(&self, id: &span::Id) {
         self.stacks.lock().unwrap().entry(vt()).or_default().push(self.in_id(&id));
